@@ -251,6 +251,12 @@ class Merge(Expr):
             # The left side of a "leftsemi" join can't be broadcasted either
             and not (self.how == "leftsemi" and broadcast_side == "left")
             and broadcast is not False
+            # Unless the join is "inner", the other side is split by the hash
+            # of its join columns: it must not be joined on its index
+            and not (
+                self.how != "inner"
+                and (self.left_index if broadcast_side == "right" else self.right_index)
+            )
         ):
             n_low = min(self.left.npartitions, self.right.npartitions)
             n_high = max(self.left.npartitions, self.right.npartitions)
